@@ -13,7 +13,7 @@ RULE = ("seeded random update/query sequences against pyrates.backend.base.base_
         "non-trivial if it has >= 20 updates and >= 10 interior queries; distinct = distinct (shape, dtype, length, "
         "seed) signature")
 DECIDING = ['queries_between', 'queries_at', 'queries_before', 'queries_after', 'growth_events', 'mutation_checks',
-            'bounded_raise_checks', 'insitu_queries']
+            'bounded_raise_checks', 'insitu_queries', 'result_mutation_checks', 'integer_initial_state']
 ASSUMPTIONS = ['update times strictly increasing (as the property states)', 'finite values only']
 CASE_TIMEOUT = 300
 
@@ -32,6 +32,7 @@ def plan(tier, seed):
             length = rnd.choice([5, 30, 200, 1023, 1024, 1025, 2049, 4097, 9000, 20000]) if r < 0.7 else rnd.randint(1, 20000)
         cases.append({'family': 'main', 'kind': 'seq', 'cseed': rnd.randrange(1 << 30), 'shape': list(rnd.choice(shapes)),
                       'dtype': rnd.choice(dtypes), 'length': length, 'bounded': rnd.random() < 0.25,
+                      'int_y0': rnd.random() < 0.15,
                       'tstyle': rnd.choice(['uniform', 'jitter', 'tiny', 'huge', 'negative_start'])})
     # in-situ cases: a real DDE run with the monitored history class
     m = 6 if tier == 'quick' else 60
@@ -135,6 +136,10 @@ def run_seq(case, mech):
     t0 = {'negative_start': -3.7, 'huge': 1e6, 'tiny': 0.0}.get(ts, 0.0)
     dt = {'tiny': 1e-9, 'huge': 13.0}.get(ts, 0.01)
     y0 = rand_state()
+    if case.get('int_y0') and dtype == 'float64':
+        # initial state given as whole numbers in an integer array (np.array([0, 1])), later records are floats
+        y0 = np.asarray(np.round(np.real(y0) * 3), dtype=np.int64)
+        mech['integer_initial_state'] = mech.get('integer_initial_state', 0) + 1
     bounded = case['bounded']
     cap = None
     if bounded:
@@ -145,7 +150,7 @@ def run_seq(case, mech):
     sh = Shadow(y0, t0)
     # caller mutates y0 afterwards: must not alter the record
     if y0.shape:
-        y0 += 1000.0
+        y0 += 1000 if y0.dtype.kind in 'iu' else 1000.0
     else:
         y0 = y0 + 1000.0
     t = t0
@@ -218,13 +223,21 @@ def run_seq(case, mech):
                     lo, hi = sh.t[j], sh.t[min(j + 1, n - 1)]
                     tq = lo + rnd.random() * (hi - lo)
                 kind, exp = sh.query(tq)
-                got = h(tq)
-                got = np.array(got, copy=True)
+                live = h(tq)
+                got = np.array(live, copy=True)
                 mech['queries_' + kind] = mech.get('queries_' + kind, 0) + 1
                 nq += 1
                 msg = _cmp(kind, got, exp, dtype)
                 if msg:
                     return f'query t={tq!r} after {n} records ({kind}): {msg}'
+                if isinstance(live, np.ndarray) and live.shape and live.flags.writeable and rnd.random() < 0.5:
+                    # the caller works in place on the array it was handed: the stored records must not change
+                    live[...] = 12345.0
+                    mech['result_mutation_checks'] = mech.get('result_mutation_checks', 0) + 1
+                    msg = _cmp(kind, np.array(h(tq), copy=True), exp, dtype)
+                    if msg:
+                        return (f'query t={tq!r} after {n} records ({kind}) repeated after the caller modified the array returned '
+                                f'by the first query in place: {msg}')
     if not bounded and length >= 1024:
         # growth without internals: fall back to counting by length
         if cap_seen is None:
